@@ -62,6 +62,8 @@ def generate(unit, reg, canaries=True, assume_not=(), assume=None):
     sx = SX(unit, reg)
     reg.cur_unit = unit
     sx.cur_func = "%s:%s" % (os.path.basename(unit.path)[:-3], unit.qual)
+    loops = sorted([n for n in ast.walk(fdef) if isinstance(n, (ast.For, ast.AsyncFor, ast.While))], key=lambda n: (n.lineno, n.col_offset))
+    sx.loop_ids = {id(n): i + 1 for i, n in enumerate(loops)}
     con = unit.contract
     st = State()
     params = {}
@@ -114,6 +116,10 @@ def generate(unit, reg, canaries=True, assume_not=(), assume=None):
             # parameter names in postconditions denote the arguments (python code may rebind the local names)
             extra = dict(params)
             extra["result"] = res
+            # locals a postcondition may mention under a guard: arbitrary when unbound on this path
+            for nm, ty in (getattr(unit, "post_locals", None) or {}).items():
+                if nm not in s.env:
+                    extra[nm] = sx.fresh(ty, nm, s)
             if unit.path_hooks and "return" in unit.path_hooks:
                 unit.path_hooks["return"](sx, res, s)
             for (name, src) in con.ensures:
@@ -428,7 +434,7 @@ def decode_any(model, sx, st, v, depth=0):
 
 
 # ------------------------------------------------------------------------- run one unit (worker)
-def run_unit(unit_key, sidecar_modules, tier="quick", timeout_ms=None, pass_name="main", assume_not=(), assume=None, only_prop=None):
+def run_unit(unit_key, sidecar_modules, tier="quick", timeout_ms=None, pass_name="main", assume_not=(), assume=None, only_prop=None, tolerate=()):
     """executed in a worker process: returns a picklable report"""
     import importlib
 
@@ -472,13 +478,21 @@ def run_unit(unit_key, sidecar_modules, tier="quick", timeout_ms=None, pass_name
             if ob.kind == "canary":
                 if ob.name in refuted_canaries:
                     continue  # one refuting path is enough for a must-fail canary
-                r, s_, dt = check_z3(ob.hyps, z3.Not(ob.claim), 2000)
+                # vacuity guard: the path must be satisfiable together with the negated canary; quantified hypotheses are
+                # left out for this one query (they only make `sat` answers harder to obtain, never easier)
+                r, s_, dt = check_z3([h for h in ob.hyps if not sx._quantified(h)], z3.Not(ob.claim), 2000)
                 ob.seconds, ob.backend = dt, "z3"
                 if r == z3.sat:
                     ob.status = "refuted"
                     refuted_canaries.add(ob.name)
                 else:
                     ob.status = "discharged" if r == z3.unsat else "unknown"
+                continue
+            if any(p in ob.name for p in tolerate):
+                # obligation of a listed known finding: one short attempt only (its witness decides the KNOWN-FINDING line)
+                r, s_, dt = check_z3(ob.hyps, z3.Not(ob.claim), 2000)
+                ob.seconds, ob.backend = dt, "z3"
+                ob.status = "discharged" if r == z3.unsat else ("refuted" if r == z3.sat else "unknown")
                 continue
             discharge(ob, tmo, both=(tier == "thorough"))
         # canaries nobody refuted quickly: try harder (bounded model search)
